@@ -129,6 +129,82 @@ pub fn check_outputs(c: &Compiled, src_out_t: &Type, outs: &[IOStatus], r: &Exec
     ok
 }
 
+/// a program whose last operation is a truncation by 2^k (small operands: the probabilistic
+/// failure of the ABY3 truncation, about |x| / 2^w, is negligible): variant 0: trunc(x),
+/// 1: trunc(x*y), 2: trunc(x + y)
+pub fn truncate_program(st: ScalarType, k: u32, variant: usize, shape: Vec<u64>) -> Prog {
+    let ctx = create_context().unwrap();
+    let g = ctx.create_graph().unwrap();
+    let t = array_type(shape, st);
+    let x = g.input(t.clone()).unwrap();
+    let (pre, its) = match variant % 3 {
+        0 => (x, vec![t.clone()]),
+        1 => { let y = g.input(t.clone()).unwrap(); (x.multiply(y).unwrap(), vec![t.clone(), t.clone()]) }
+        _ => { let y = g.input(t.clone()).unwrap(); (x.add(y).unwrap(), vec![t.clone(), t.clone()]) }
+    };
+    let o = pre.truncate(1u128 << k).unwrap();
+    g.set_output_node(o).unwrap();
+    g.finalize().unwrap();
+    ctx.set_main_graph(g.clone()).unwrap();
+    ctx.finalize().unwrap();
+    Prog { ctx, g, input_types: its, attempts: vec![] }
+}
+
+/// three-party executions of a truncating program: every designated output party ends with a value
+/// within one unit of the plaintext result in every element (secure truncation returns floor or
+/// floor + 1, property C05); a shared result has consistent slots that add up to such a value
+fn run_truncate_program(p: &Prog, st: ScalarType, owners: &[IOStatus], outs: &[IOStatus], mname: &str, mode: InlineConfig, rng: &mut Rng, out: &mut Out, n_exec: usize) {
+    let desc = json!({"ops": p.g.get_nodes().iter().map(|n| op_name(&n.get_operation())).collect::<Vec<_>>(), "input_types": p.input_types.iter().map(|t| format!("{}", t)).collect::<Vec<_>>(), "owners": owners.iter().map(status_str).collect::<Vec<_>>(), "outputs": outs.iter().map(status_str).collect::<Vec<_>>(), "inline": mname});
+    let c = match compile(p, owners, outs, mode) { Outcome::Ok(c) => c, Outcome::Err => { out.stat("compile:Err"); return; } Outcome::Panic => { out.violation("compiler-panics", desc, "compile_context panicked".into()); return; } };
+    let oid = c.g.get_output_node().unwrap().get_id() as usize;
+    let private = owners.iter().any(|o| *o != IOStatus::Public);
+    out.case("T:kcheck", format!("kcheck {} {} {}", cfg_coq(owners, outs, &c.g), nodes_coq(&c.g), oid), "true".into(), desc.clone(), private);
+    let ot = p.g.get_output_node().unwrap().get_type().unwrap();
+    let w = st.size_in_bits();
+    let m: u128 = if w >= 128 { u128::MAX } else { (1u128 << w) - 1 };
+    let close = |a: &Value, b: &Value| -> bool {
+        match (a.to_flattened_array_u128(ot.clone()), b.to_flattened_array_u128(ot.clone())) {
+            (Ok(x), Ok(y)) => x.len() == y.len() && x.iter().zip(y.iter()).all(|(p, q)| { let d = p.wrapping_sub(*q) & m; d <= 1 || d == m }),
+            _ => false,
+        }
+    };
+    for _ in 0..n_exec {
+        // small operands, of both signs for signed types
+        let plain: Vec<Value> = p.input_types.iter().map(|t| { let n: u64 = t.get_shape().iter().product(); let v: Vec<u128> = (0..n).map(|_| { let x = rng.below(1 << 12) as u128; if st.is_signed() && rng.chance(1, 2) { x.wrapping_neg() & m } else { x } }).collect(); Value::from_flattened_array(&v, st).unwrap() }).collect();
+        let pv = eval_all(&p.g, &plain, [3u8; 16]);
+        let plain_out = match pv[p.g.get_output_node().unwrap().get_id() as usize].clone().ok() { Some(v) => v, None => continue };
+        let ins = party_inputs(&p.input_types, owners, &plain, rng);
+        let mut seeds = [[0u8; 16]; 3];
+        for s in seeds.iter_mut() { for b in s.iter_mut() { *b = rng.next() as u8; } }
+        let r = exec3(&c.g, &ins, seeds);
+        if !outs.is_empty() {
+            for s in outs {
+                if let IOStatus::Party(q) = s {
+                    match r.vals[*q as usize][oid].extract() {
+                        Some(v) if close(&v, &plain_out) => out.oracle_ok(),
+                        v => out.violation("exec3-truncate-output-party-wrong-result", desc.clone(), format!("party {} holds {} (more than one unit from the plaintext result)", q, if v.is_some() { "a different value" } else { "poison" })),
+                    }
+                }
+            }
+        } else {
+            let mut slots: Vec<Option<Value>> = vec![];
+            let mut ok = true;
+            for j in 0..3usize {
+                let a = r.vals[j][oid].get(j).extract();
+                let b = r.vals[(j + 2) % 3][oid].get(j).extract();
+                if a.is_none() || a != b { out.violation("exec3-truncate-shared-output-inconsistent", desc.clone(), format!("slot {} differs between party {} and party {}", j, j, (j + 2) % 3)); ok = false; }
+                slots.push(a);
+            }
+            if ok {
+                match add3(slots[0].as_ref().unwrap(), slots[1].as_ref().unwrap(), slots[2].as_ref().unwrap(), &ot) {
+                    Some(sv) if close(&sv, &plain_out) => out.oracle_ok(),
+                    _ => out.violation("exec3-truncate-shared-output-does-not-reconstruct", desc.clone(), "s0+s1+s2 is more than one unit from the plaintext result".into()),
+                }
+            }
+        }
+    }
+}
+
 pub fn run_program(p: &Prog, owners: &[IOStatus], outs: &[IOStatus], mname: &str, mode: InlineConfig, rng: &mut Rng, out: &mut Out, class_prefix: &str, n_exec: usize, truncating: bool) {
     let its = p.input_types.clone();
     run_program_with(p, owners, outs, mname, mode, rng, out, class_prefix, n_exec, truncating, &move |r: &mut Rng| its.iter().map(|t| gen_value(t, r)).collect())
@@ -247,6 +323,18 @@ pub fn run(tier: &str, seed: u64, out: &mut Out) {
         let (mname, mode) = modes[i % 3].clone();
         out.stat("stream:broadcast-mix");
         run_program(&p, &owners, &outs, mname, mode, &mut rng, out, "exec3-broadcast-mix", 1, false);
+    }
+    // secure truncation by a power of two as the last operation (approximate result: own oracle)
+    let n_trunc = match tier { "thorough" => 60, "search" => 200, _ => 8 };
+    for i in 0..n_trunc {
+        let st = [INT64, UINT64, INT32, UINT32][i % 4];
+        let k = 1 + rng.below(8) as u32;
+        let p = truncate_program(st, k, i / 4, vec![1 + rng.below(3)]);
+        let owners: Vec<IOStatus> = (0..p.input_types.len()).map(|j| [IOStatus::Party(((i + j) % 3) as u64), IOStatus::Party(((i + 2 * j + 1) % 3) as u64), IOStatus::Shared][(i / 2 + j) % 3].clone()).collect();
+        let outs = all_outs[(i * 5) % all_outs.len()].clone();
+        let (mname, mode) = modes[i % 3].clone();
+        out.stat("stream:truncate-last");
+        run_truncate_program(&p, st, &owners, &outs, mname, mode, &mut rng, out, 2);
     }
     for i in 0..(n_frag + n_wide) {
         let wide = i >= n_frag;
